@@ -147,18 +147,61 @@ def _f16(prop, case, v):
             for f in h:
                 if f not in outhdr:
                     outhdr.append(f)
+    precondition = False
     if key is None:
         if any(h != outhdr for h in hdrs):
-            return True
+            precondition = True
         keyfields = outhdr
     else:
-        keyfields = list(key) if isinstance(key, (list, tuple)) else [key]
-    if missing is not None:
+        keyfields = [(outhdr[k] if isinstance(k, int) and not isinstance(k, bool) and k < len(outhdr) else k)
+                     for k in (list(key) if isinstance(key, (list, tuple)) else [key])]
+    if missing is not None and not precondition:
         for h, t in zip(hdrs, tables):
             pos = [h.index(f) for f in keyfields if f in h]
             if len(pos) < len(keyfields):
-                return True   # a key field this input does not have at all is filled with `missing`
+                precondition = True   # a key field this input does not have at all is filled with `missing`
             for r in t[1:]:
                 if any(p >= len(r) for p in pos):
-                    return True
-    return False
+                    precondition = True
+    if not precondition:
+        return False
+    # ... and the observed sequence must be exactly what this mechanism produces (sort each input by its own key, standardise,
+    # then merge the heads by the standardised key, first minimal head first): any other wrong order is not this finding
+    try:
+        return _f16_predict(case, outhdr, hdrs) == _crows(v.get('observed'))
+    except Exception:
+        return False
+
+
+def _crows(rows):
+    from petlmon import util
+    return util.crows(rows) if isinstance(rows, list) else None
+
+
+def _f16_predict(case, outhdr, hdrs):
+    from petlmon import gen, util
+    tables, key, missing, reverse = case['tables'], case['key'], case['missing'], case['reverse']
+    streams = []
+    for h, t in zip(hdrs, tables):
+        rows = [tuple(r) for r in t[1:]]
+        # (with presorted=True the check hands over inputs it has sorted this same way itself)
+        idx = gen.resolve_key(h, key) if key is not None else list(range(len(h)))
+        rows = util.model_sorted(rows, lambda r: gen.keyval(r, idx), reverse)
+        std = [tuple((r[h.index(f)] if (f in h and h.index(f) < len(r)) else missing) for f in outhdr) for r in rows]
+        streams.append(std)
+    oidx = gen.resolve_key(outhdr, key) if key is not None else list(range(len(outhdr)))
+    heads = [s for s in streams if s]
+    pos = [0] * len(heads)
+    out = [tuple(outhdr)]
+    while heads:
+        best = 0
+        for j in range(1, len(heads)):
+            c = util.model_cmp(gen.keyval(heads[j][pos[j]], oidx), gen.keyval(heads[best][pos[best]], oidx))
+            if (c > 0) if reverse else (c < 0):
+                best = j
+        out.append(heads[best][pos[best]])
+        pos[best] += 1
+        if pos[best] == len(heads[best]):
+            del heads[best]
+            del pos[best]
+    return util.crows(out)
